@@ -1094,7 +1094,11 @@ class DateTime(datetime.datetime, Date):
         if day_of_week is None:
             return self._start_of_day_on(dt.year, dt.month, 1)
 
-        month = calendar.monthcalendar(dt.year, dt.month)
+        # Always a Monday-first layout (day_of_week indexes the columns):
+        # calendar.monthcalendar() follows calendar.setfirstweekday()
+        month = calendar.Calendar(calendar.MONDAY).monthdayscalendar(
+            dt.year, dt.month
+        )
 
         calendar_day = day_of_week
 
@@ -1117,7 +1121,11 @@ class DateTime(datetime.datetime, Date):
         if day_of_week is None:
             return self._start_of_day_on(dt.year, dt.month, self.days_in_month)
 
-        month = calendar.monthcalendar(dt.year, dt.month)
+        # Always a Monday-first layout (day_of_week indexes the columns):
+        # calendar.monthcalendar() follows calendar.setfirstweekday()
+        month = calendar.Calendar(calendar.MONDAY).monthdayscalendar(
+            dt.year, dt.month
+        )
 
         calendar_day = day_of_week
 
